@@ -314,6 +314,41 @@ def run_case(case, ctx):
                             if not err <= 1e-6 * max(kap, 1.0):
                                 bad_quad = (err, f"e1^T {fname}(T) e1 = {gotq:.8g} != z^T {fname}(A) z = {refq:.8g}")
                         n_quad += 1
+            # recording may stop before the budget only when EVERY tracked column has broken down (off-diagonal below the solver's 1e-6
+            # threshold): a probe whose Krylov space is far from exhausted at that point must still be recorded
+            # (the iteration that meets the stopping rule leaves the loop before its coefficients are recorded: one step of slack)
+            budget_rec = min(ti, len(iters) - 1)
+            if kfull < budget_rec and dt == torch.float64 and kap <= 1e4 and pk_ok and x0 is None and not scaled:
+                from .c09 import krylov_dim
+
+                alive = None
+                for p_ in range(ntri):
+                    for b_ in range(Tf.shape[1]):
+                        if bool(zerof[b_, p_]):
+                            continue
+                        masked = False
+                        for it in iters:
+                            if it["k"] > kfull:
+                                break
+                            hc = it["has_converged"].reshape(-1, it["has_converged"].shape[-1])
+                            al = it["alpha"].reshape(-1, it["alpha"].shape[-1])
+                            if float(al[b_, p_]) == 0.0 or bool(hc[b_, p_]):
+                                masked = True
+                                break
+                        if masked:
+                            continue
+                        z = zf[b_, :, p_]
+                        if Pihf is not None:
+                            z = Pihf[b_] @ z
+                        kdt = int(krylov_dim(Mf[b_], z.unsqueeze(-1), tol=1e-3))
+                        if kdt > kfull + 1:
+                            alive = (p_, b_, kdt)
+                ctx.stat("tridiag_truncated_before_budget")
+                if alive is not None:
+                    ctx.fail("tridiag_recorded_while_a_probe_is_alive", "value", detail=f"T has {kfull} steps although {budget_rec} were run within the budget and probe {alive[0]} of member "
+                             f"{alive[1]} has a Krylov space of dimension {alive[2]} (not converged, not masked)", **kw)
+                else:
+                    ctx.ok("tridiag_recorded_while_a_probe_is_alive", kb, n >= 2)
             if bad_ritz:
                 ctx.fail("ritz_values_in_spectrum", "value", detail=bad_ritz, **kw)
             elif ritz_judged:
